@@ -3,7 +3,7 @@
 From Coq Require Import ZArith List Bool String Lia.
 From Droop Require Import Model.KernelBase Model.Str Model.Arith Model.State Model.Prims Model.Prelude Model.Profile Model.ProfileSpec
   Model.Election Model.EndToEnd Proofs.Zlike Proofs.Gregory Proofs.Conserve Proofs.Forward Proofs.ParserLemmas Proofs.ConserveCount
-  Proofs.MeekRun Proofs.MeekKfRun Proofs.MeekPrfRun Proofs.MeekCount Proofs.Terminate Proofs.TerminateMeek.
+  Proofs.MeekRun Proofs.MeekKfRun Proofs.MeekPrfRun Proofs.MeekCount Proofs.Terminate Proofs.TerminateMeek Proofs.Winners Proofs.Majority.
 Import ListNotations.
 Open Scope Z_scope.
 
@@ -150,5 +150,34 @@ Theorem accepted_meek_terminates : exact A = false -> forall text p fuel, parse_
 Proof.
   intros Hex text p fuel Hp Hf1 Hf2. apply (meek_count_terminates A S ZL cfg Hex); [|exact Hf1|rewrite cands_len; exact Hf2].
   rewrite cands_ids. apply nodup_cids_upto.
+Qed.
+
+(* the number of winners and the one-seat majority clause, for every accepted file without equal-rank ballots *)
+Lemma nballots_strict (text : ustr) p : parse_file text = Ok p -> p_linesEq p = [] -> p_nBallots p = ballot_total (to_count_profile p).
+Proof.
+  intros Hp Hq. pose proof (totals_agree p (strip_bom_declared text p Hp)) as Ht. cbn [pr_nballots to_count_profile] in Ht.
+  assert (Ez: eballot_total (to_count_profile p) = 0) by (unfold eballot_total; cbn [pr_eballots to_count_profile]; rewrite Hq; reflexivity). lia.
+Qed.
+
+Theorem accepted_winners : cf_method cfg = MWigm -> exact A = false -> 0 <= cf_nseats cfg ->
+  forall r text p fuel s k, win_rule cfg r -> parse_file text = Ok p -> p_linesEq p = [] -> cf_nballots cfg = p_nBallots p ->
+  exec (@crashed A) fuel (count_cmd A cfg r) (init_state A cfg (to_count_profile p)) = Some (s, k) -> k <> Abort ->
+  nlen (electeds A s) = Z.min (cf_nseats cfg) (nlen (eligibles A s)).
+Proof.
+  intros Hm Hex Hns r text p fuel s k Hr Hp Hq Hn He Hk.
+  pose proof (nballots_strict text p Hp Hq) as Hb. pose proof (vp_enough_ballots p (strip_bom_declared text p Hp)) as Hen.
+  apply (count_winners A S ZL cfg Hm Hex ltac:(lia) Hns r _ fuel s k Hr (proj1 (accepted_file_is_wf text p Hp)) ltac:(congruence) He Hk).
+Qed.
+
+Theorem accepted_majority_scotland : exact A = false -> cf_nseats cfg = 1 ->
+  forall text p m fuel s k, parse_file text = Ok p -> p_linesEq p = [] -> cf_nballots cfg = p_nBallots p ->
+  In m (p_eligible p) -> p_nBallots p < 2 * first_prefs (to_count_profile p) m ->
+  exec (@crashed A) fuel (count_cmd A cfg RScotland) (init_state A cfg (to_count_profile p)) = Some (s, k) -> k <> Abort ->
+  forall c, In c (State.cands s) -> cid c = m -> cst c = Elected.
+Proof.
+  intros Hex Hseat text p m fuel s k Hp Hq Hn Hel Hmaj He Hk.
+  pose proof (strip_bom_declared text p Hp) as V. pose proof (nballots_strict text p Hp Hq) as Hb.
+  apply (count_majority_scotland A S ZL cfg Hex Hseat _ m fuel s k (proj1 (accepted_file_is_wf text p Hp)) ltac:(congruence)); [|lia|exact He|exact Hk].
+  destruct (proj1 (vp_eligible p V m) Hel) as [Hr Hw]. apply live_cand; assumption.
 Qed.
 End Accepted.
